@@ -212,8 +212,11 @@ def install(g, pid, *, text, note, technique, quick, thorough, mons=None, forces
     POPOPS_NOTE = (" The numpy code of selection and fitness invalidation (Population.topk / merge / __getitem__ / update_genome, BaseSEA.select_new_population, the replacement step of DE.run and "
                    "SHADE.run, the keep-the-parent's-fitness-only-if-identical rule of the four DE operators) is translated on every check (coq/Gen/GenPop.v, hv/translate/popops_py.py: "
                    "populations as two aligned lists, np.argsort as an oracle permutation) and proved equal to the selection / population models of the theorems (Proofs/GenEquivPop.v).")
+    OPS_NOTE = (" The per-gene arithmetic of the operators and samplers (GaussianMutation, UniformMutation, ArithmeticCrossover, the DE donors, SHADE's current-to-pbest donor, Crossover, the LHS / "
+                "Sobol scaling, sample_normal's membership test) is translated on every check (coq/Gen/GenOps.v, hv/translate/ops_py.py: numpy's elementwise expression as a binary64 function of "
+                "one gene) and proved equal to the operator model the theorems are about (Proofs/GenEquivOps.v).")
     g["MANIFEST"] = {"text": text + (" The same for the run() translated from the current sources (code_moment theorems)." if "driver" in front_ends and pid != "C11" else ""),
-                     "note": note + " " + COMMON_NOTE + (DRIVER_NOTE if "driver" in front_ends else "") + (STOPS_NOTE if "stops" in front_ends else "") + (ACCESSORS_NOTE if "accessors" in front_ends else "") + (POPOPS_NOTE if "popops" in front_ends else "") + (FILTERS_NOTE if ("levellimit" in front_ends or "demelimit" in front_ends) else ""),
+                     "note": note + " " + COMMON_NOTE + (DRIVER_NOTE if "driver" in front_ends else "") + (STOPS_NOTE if "stops" in front_ends else "") + (ACCESSORS_NOTE if "accessors" in front_ends else "") + (POPOPS_NOTE if "popops" in front_ends else "") + (OPS_NOTE if "ops" in front_ends else "") + (FILTERS_NOTE if ("levellimit" in front_ends or "demelimit" in front_ends) else ""),
                      "technique": technique + ("; python-ast -> Gallina translation of tree.py and the deme run_metaepoch loops with a machine-checked simulation by the small-step machine" if "driver" in front_ends and pid != "C11" else
                                                "; static population-freshness analysis in the driver translator" if pid == "C11" else "")}
 
